@@ -404,7 +404,66 @@ def s_foreign(rnd):
     return n + 1
 
 
-ALL = [s_recv, s_waitall, s_sendall, s_struct, s_pickle, s_copy, s_dispatch, s_pipe, s_queue, s_event, s_sigterm, s_foreign]
+def _exit_now(conn):
+    os._exit(3)
+
+
+@sample('T3 Pipe EOF needs every copy closed', 'a pipe reports EOF only when EVERY copy of its write end is closed: while the reading process still holds its own copy, '
+                                               'a child that dies without writing does not make recv() return (poll stays False) - only the sentinel tells (C20.L1d)')
+def s_pipe_eof(rnd):
+    ctx = mp.get_context('fork')
+    n = 0
+    for _ in range(2):
+        r, w = ctx.Pipe(duplex=False)
+        p = ctx.Process(target=_exit_now, args=(w,))
+        p.start()
+        p.join(5)
+        assert not p.is_alive(), 'the child that exits at once is still alive'
+        assert r.poll(0.3) is False, 'a pipe whose write end is still held by the reader itself became readable (EOF) after the child died'
+        assert mpc.wait([r, p.sentinel], timeout=1) == [p.sentinel], 'connection.wait([pipe, sentinel]) did not single out the sentinel of the dead child'
+        w.close()
+        assert r.poll(1) is True, 'after the last copy of the write end was closed the pipe did not become readable (EOF)'
+        try:
+            r.recv()
+            assert False, 'recv returned a value from a pipe nobody wrote to'
+        except EOFError:
+            n += 1
+        r.close()
+    return n
+
+
+@sample('T2 reset connection', 'on a TCP connection the peer has RESET (closed with SO_LINGER 0) getpeername() fails with OSError (ENOTCONN) once the reset has been '
+                               'seen, while getsockname() still returns the local address (C11.L2)')
+def s_reset(rnd):
+    n = 0
+    for _ in range(3):
+        ls = socket.socket(socket.AF_INET, socket.SOCK_STREAM)
+        ls.bind(('127.0.0.1', 0))
+        ls.listen()
+        c = socket.create_connection(ls.getsockname(), timeout=3)
+        s, _ = ls.accept()
+        s.settimeout(3)
+        local = s.getsockname()
+        assert s.getpeername() == c.getsockname()
+        c.setsockopt(socket.SOL_SOCKET, socket.SO_LINGER, struct.pack('ii', 1, 0))
+        c.close()
+        time.sleep(0.2)
+        try:
+            s.recv(1)
+        except OSError:
+            pass
+        try:
+            s.getpeername()
+            assert False, 'getpeername() still works on a connection the peer has reset'
+        except OSError:
+            n += 1
+        assert s.getsockname() == local, 'getsockname() changed or failed after the peer reset the connection'
+        s.close()
+        ls.close()
+    return n
+
+
+ALL = [s_recv, s_waitall, s_sendall, s_struct, s_pickle, s_copy, s_dispatch, s_pipe, s_queue, s_event, s_sigterm, s_foreign, s_pipe_eof, s_reset]
 
 
 def main():
